@@ -52,6 +52,14 @@ class Goto(Exception):
     def __init__(self, label): self.label = label
 
 
+class HostTrap(Exception):
+    """the analysed code performs a trapping / undefined host operation on this path"""
+    def __init__(self, what, where):
+        Exception.__init__(self, '%s at %s' % (what, where))
+        self.what = what
+        self.where = where
+
+
 class Infeasible(Exception):
     """the current decision prefix contradicts a refinement (should not happen)"""
 
@@ -101,6 +109,8 @@ class Sym:
         self.truth = None     # opaque only
         self.eq = None
         self.ne = set()
+        self.lo = None        # optional inclusive bounds (opaque integers compared with constants)
+        self.hi = None
     def __repr__(self):
         if self.dom is not None and len(self.dom) <= 4:
             return '$%s%s' % (self.label, sorted(self.dom))
@@ -377,6 +387,12 @@ class Interp:
                 v = self.sv_cast(v, q)
             elif q is not None and isinstance(v, float) and int_type(q):
                 v = wrap(int(v), q)
+            if path and isinstance(path[-1], str):
+                sibs = self.p.union_siblings().get(path[-1])
+                if sibs:
+                    for sib, sq in sibs:
+                        if sib != path[-1]:
+                            obj.f.pop(path[:-1] + (sib,), None)
             obj.f[path] = v
 
     def load(self, obj, path, q=None):
@@ -395,11 +411,33 @@ class Interp:
             pv = f.get(path[:i])
             if isinstance(pv, tuple) and pv and pv[0] == 'zeroarr':
                 return 0
+        if path and isinstance(path[-1], str):
+            v = self.union_alias(obj, path, q)
+            if v is not None:
+                return v
         if obj.kind == 'extern':
             return self.extern_load(obj, path, q)
         if obj.kind == 'str':
             raise Unsupported('read past end of string %r' % obj.label)
         return UNINIT
+
+    def union_alias(self, obj, path, q):
+        """reading a union member other than the one last written: reinterpret same-size integers"""
+        sibs = self.p.union_siblings().get(path[-1])
+        if not sibs or q is None or int_type(q) is None:
+            return None
+        for sib, sq in sibs:
+            sp = path[:-1] + (sib,)
+            if sib != path[-1] and sp in obj.f and sq.strip() == 'double' and int_type(q)[0] == 64 and isinstance(obj.f[sp], float):
+                import struct
+                return wrap(struct.unpack('Q', struct.pack('d', obj.f[sp]))[0], q)
+            if sib != path[-1] and sp in obj.f and int_type(sq) and int_type(sq)[0] == int_type(q)[0]:
+                v = obj.f[sp]
+                if isinstance(v, int):
+                    return wrap(v, q)
+                if self.sv_of(v):
+                    return self.sv_cast(v, q)
+        return None
 
     def extern_load(self, obj, path, q):
         s = Sym(obj.label + ''.join('.' + str(p) for p in path))
@@ -502,15 +540,36 @@ class Interp:
             return v.m[x]
         return x
 
+    def _pointwise(self, sym, getter):
+        """apply getter(x) for every x in sym.dom; elements on which it raises HostTrap are split off:
+        one branch refines the domain to them and re-raises, the other continues with the rest"""
+        out = {}
+        traps = {}
+        for x in sym.dom:
+            try:
+                out[x] = getter(x)
+            except HostTrap as h:
+                traps[x] = h
+        if traps:
+            if out:
+                c = self.decide(2, ('trap', 'pointwise'))
+            else:
+                c = 0
+            if c == 0:
+                sym.dom = frozenset(traps)
+                raise next(iter(traps.values()))
+            sym.dom = frozenset(out)
+        try:
+            vals = set(out.values())
+            if len(vals) == 1:
+                return next(iter(vals))
+        except TypeError:
+            pass
+        return SV(sym, out)
+
     def sv_map1(self, v, fn):
         sym, m = self.sv_of(v)
-        out = {}
-        for x in sym.dom:
-            out[x] = fn(m[x] if m is not None else x)
-        vals = set(out.values()) if all(isinstance(y, (int, float)) for y in out.values()) else None
-        if vals is not None and len(vals) == 1:
-            return next(iter(vals))
-        return SV(sym, out)
+        return self._pointwise(sym, lambda x: fn(m[x] if m is not None else x))
 
     def sv_map2(self, a, b, fn):
         sa, sb = self.sv_of(a), self.sv_of(b)
@@ -523,20 +582,13 @@ class Interp:
                     b = self.concretize(b, 'pair')
                 return self.arith2(a, b, fn)
             sym = sa[0]
-            out = {x: fn(self.sv_get(a, x), self.sv_get(b, x)) for x in sym.dom}
+            return self._pointwise(sym, lambda x: fn(self.sv_get(a, x), self.sv_get(b, x)))
         elif sa:
             sym = sa[0]
-            out = {x: fn(self.sv_get(a, x), b) for x in sym.dom}
+            return self._pointwise(sym, lambda x: fn(self.sv_get(a, x), b))
         else:
             sym = sb[0]
-            out = {x: fn(a, self.sv_get(b, x)) for x in sym.dom}
-        try:
-            vals = set(out.values())
-            if len(vals) == 1:
-                return next(iter(vals))
-        except TypeError:
-            pass
-        return SV(sym, out)
+            return self._pointwise(sym, lambda x: fn(a, self.sv_get(b, x)))
 
     def arith2(self, a, b, fn):
         if self.sv_of(a) or self.sv_of(b):
@@ -707,7 +759,15 @@ class Interp:
             return int(self.split(v, self.where(e)))
         if ck == 'NullToPointer':
             return None
-        if ck in ('NoOp', 'BitCast', 'FloatingCast'):
+        if ck == 'FloatingCast':
+            if qstr(e['type']).strip() == 'float' and isinstance(v, float):
+                import struct
+                try:
+                    return struct.unpack('f', struct.pack('f', v))[0]
+                except OverflowError:
+                    return float('inf') if v > 0 else float('-inf')
+            return v
+        if ck in ('NoOp', 'BitCast'):
             return v
         if ck == 'IntegralToFloating':
             if isinstance(v, int): return float(v)
@@ -839,13 +899,19 @@ class Interp:
         if op == '/':
             def f(a, b):
                 if isinstance(a, int) and isinstance(b, int):
-                    if b == 0: raise Unsupported('division by zero in analysed code at %s' % self.where(e))
+                    if b == 0: raise HostTrap('integer division by zero', self.where(e))
+                    t = int_type(q)
+                    if t and t[1] and a == -(1 << (t[0] - 1)) and b == -1:
+                        raise HostTrap('signed division overflow (MIN / -1)', self.where(e))
                     return w(cdiv(a, b))
                 return a / b
             return f
         if op == '%':
             def f(a, b):
-                if b == 0: raise Unsupported('modulo by zero in analysed code at %s' % self.where(e))
+                if b == 0: raise HostTrap('integer remainder by zero', self.where(e))
+                t = int_type(q)
+                if t and t[1] and a == -(1 << (t[0] - 1)) and b == -1:
+                    raise HostTrap('signed remainder overflow (MIN %% -1)', self.where(e))
                 return w(a - b * cdiv(a, b))
             return f
         if op == '&': return lambda a, b: w(a & b)
@@ -924,12 +990,39 @@ class Interp:
                     s.ne.add(c)
                     if c == 0: s.truth = True
             return int(r if op == '==' else not r)
+        if op in ('<', '<=', '>', '>='):
+            r = self.bounded_compare(op, a, b, e)
+            if r is not None:
+                return r
         if self.lenient_opaque:
             if op in ('<', '<=', '>', '>='):
                 c = self.decide(2, ('rel', self.where(e)))
                 return int(c == 0)
             return Sym('(%s %s %s)' % (getattr(a, 'label', a), op, getattr(b, 'label', b)))
         raise Unsupported('arithmetic %s on unknown %r, %r at %s' % (op, a, b, self.where(e)))
+
+    def bounded_compare(self, op, a, b, e):
+        """opaque bounded Sym compared with a constant: decide, refining the Sym's interval"""
+        if isinstance(a, Sym) and a.dom is None and a.lo is not None and isinstance(b, int):
+            s, c = a, b
+        elif isinstance(b, Sym) and b.dom is None and b.lo is not None and isinstance(a, int):
+            s, c = b, a
+            op = {'<': '>', '<=': '>=', '>': '<', '>=': '<='}[op]
+        else:
+            return None
+        # normalise to  s <= k  (true set = [lo, k])
+        if op == '<': k, neg = c - 1, False
+        elif op == '<=': k, neg = c, False
+        elif op == '>': k, neg = c, True
+        else: k, neg = c - 1, True
+        if s.hi <= k: res = True
+        elif s.lo > k: res = False
+        else:
+            ch = self.decide(2, ('cmp', self.where(e)))
+            res = ch == 0
+            if res: s.hi = k
+            else: s.lo = k + 1
+        return int(res != neg)
 
     # ------------------------------------------------------------------ calls
     def call_expr(self, e, env):
